@@ -228,19 +228,20 @@ PROPS = {
                        "recorded; the rate of a chain is the product of its steps' rates; the search starts at distance zero; convert_single (real body, rule R29) returns an amount already in the target commodity as it is, otherwise value x the entry of the table computed for exactly this "
                        "(target, date) - memoised per (target, date), the memo proved consistent - and fails when the table has no entry (no chain); neighbours are "
                        "visited in a hash-seed-independent order (C13).  NOT decided by proof: that the label-correcting loop as a whole reaches the minimum over all chains (queue discipline and termination: a "
-                       "whole-loop invariant over BinaryHeap + HashMap was not attempted), build_naive's sort, load_price_db.  Those are exercised, bounded: every subset of <= 4 (thorough: 5) of 9 price facts over 4 "
+                       "whole-loop invariant over BinaryHeap + HashMap was not attempted), load_price_db.  build_naive IS proved (rule R41: the nested `values_mut().for_each(..)` rewritten into key-snapshot loops): every pair's prices end up sorted by date - "
+                       "the sortedness `latest usable price` relies on - with the same source and the same prices, and no pair appears or disappears.  The undecided parts are exercised, bounded: every subset of <= 4 (thorough: 5) of 9 price facts over 4 "
                        "commodities (ledger costs, an implied exchange, price-DB lines, a future price) x 6 dates x all 16 ordered pairs against a brute-force reading of the statement over all simple chains; chains that "
                        "tie on all three criteria with different rates are skipped as undecided by the statement.",
         "units_doc": ["core/src/report/price_db.rs: PriceRepositoryBuilder::{insert_price, insert_impl}, Distance::extend, WithDistance::{eq, partial_cmp} against Distance, compute_price_table (call-site slices: usable-price "
-                      "predicate, latest usable price, step age, chain rate, relaxation step, stale-queue-entry test, start distance, neighbour order), PriceRepository::{new, convert_single}"],
+                      "predicate, latest usable price, step age, chain rate, relaxation step, stale-queue-entry test, start distance, neighbour order), PriceRepositoryBuilder::build_naive (whole), PriceRepository::{new, convert_single}"],
         "assumptions": [L0_DECIMAL, L0_HANDLES, "assumed L0 model of chrono::NaiveDate (day number; date - date = that many days) and TimeDelta (seconds, ordered by length), std::cmp::max on TimeDelta",
                         "assumed (std entry API, rules R27/R28): entry(k) is Occupied iff k is present, OccupiedEntry::get is the stored value, both inserts store under k; entry(k).or_default()/.or_insert(v) is a "
                         "mutable reference to the slot under k, created first when absent",
                         "assumed (R13): derive(PartialOrd, Ord) compares fields / variants in declaration order (the declaration orders are pinned by textual anchors)",
                         "NOT proved at call sites: insert_impl's call-order precondition (no lower-ranking source after a higher-ranking one for a pair); holds because process() loads the price database after the ledger (anchor)",
-                        "assumed: slice::partition_point returns the length of the prefix satisfying the predicate (std, for a partitioned slice); build_naive sorts every rate vector by date (iterator chain, not under contract)"],
+                        "assumed: slice::partition_point returns the length of the prefix satisfying the predicate (std, for a partitioned slice); Vec<(NaiveDate, Decimal)>::sort is a permutation ordered by date (std; R41: values_mut visits every value once)"],
         "bounded": ["c09 family: 255 (thorough: 381) price-fact subsets x 6 dates x 16 ordered commodity pairs = 24,480 (36,576) conversions; rates chosen so that reciprocals and products are exact decimals"],
-        "not_decided": ["optimality of the label-correcting search (bounded family only)", "PriceDB-over-ledger precedence in insert_impl (bounded family only)", "load_price_db / parse::price (bounded family only)", "ties among equally good chains (left open by the statement)"],
+        "not_decided": ["optimality of the label-correcting search (bounded family only)", "load_price_db / parse::price (bounded family only)", "ties among equally good chains (left open by the statement)"],
     },
     "C10": {
         "level": "other",
